@@ -1,6 +1,7 @@
 """C09 - command objects are isolated from one another, in any order or interleaving."""
 import random
 
+PYOPT = 3  # every third shard also runs in an interpreter started with -O
 LEVEL = "exploration"
 RULE = (
     "per command: a solo baseline (cdb, buffers, decode(cdb), encode(decode(cdb))) with nothing else constructed in between.  "
